@@ -14,6 +14,13 @@ def request_line(raw, bufsize=10000):
       'unspecified' corners the property does not speak about (extra spaces, tabs, lower case, NUL padding, ...)
     """
     seen = raw[:bufsize]
+    if b"\n" not in seen:
+        # no line terminator arrived: the server sees the line glued to the zero padding of its buffer
+        try:
+            seen.decode("utf-8")
+        except UnicodeDecodeError:
+            return "malformed", None, None, None
+        return "unspecified", (seen.split(b" ", 1)[0].decode("latin-1") if b" " in seen[:12] else None), None, None
     line = seen.split(b"\n", 1)[0]
     try:
         text = line.decode("utf-8")
@@ -36,10 +43,25 @@ def request_line(raw, bufsize=10000):
     return "wellformed", m, t, v
 
 
-def one_response(raw, method):
+def expects_no_body(raw_request, response, bufsize=10000):
+    """HEAD / OPTIONS responses carry no body - for requests the server could read as such. Corners the
+    property is silent on (incomplete line, extra spaces, lower case) accept either form."""
+    klass, method, _, _ = request_line(raw_request, bufsize)
+    if klass == "unspecified" and method is None and b" " in raw_request[:12]:
+        method = raw_request.split(b" ", 1)[0].decode("latin-1").strip()
+    if klass == "wellformed":
+        return method in ("HEAD", "OPTIONS")
+    if klass == "unspecified" and (method or "").upper() in ("HEAD", "OPTIONS"):
+        return response.endswith(b"\r\n\r\n")
+    return False
+
+
+def one_response(raw, method, raw_request=None, bufsize=10000):
     """Strict parse of `raw` as exactly one complete response to a request with `method`.
     Returns (resp, errors)."""
     nobody = (method or "").upper() in ("HEAD", "OPTIONS")
+    if raw_request is not None:
+        nobody = expects_no_body(raw_request, raw, bufsize)
     r = httpstrict.parse(raw, head_request=nobody)
     errs = list(r.errors)
     return r, errs
